@@ -14,7 +14,8 @@ RES_TOL = 1e-9
 class Probe:
     """Intercepts scipy.sparse.linalg.bicgstab from the harness side."""
 
-    def __init__(self, fail_at=None):
+    def __init__(self, fail_at=None, fail_info=1):
+        self.fail_info = fail_info
         import scipy.sparse.linalg as sla
         self.sla = sla
         self.orig = sla.bicgstab
@@ -26,7 +27,8 @@ class Probe:
             x, info = self.orig(A, b, *a, **kw)
             self.calls.append(dict(rtol=kw.get("rtol", kw.get("tol", 1e-5)), atol=kw.get("atol", 0.0), info=int(info)))
             if self.fail_at is not None and len(self.calls) - 1 == self.fail_at:
-                return x * (1 + 1e-3), 1  # did not converge: perturbed iterate, info > 0
+                # did not converge (info > 0: iteration limit) or broke down (info < 0): perturbed iterate, flagged
+                return x * (1 + 1e-3), self.fail_info
             return x, info
         self.sla.bicgstab = wrapped
         return self
@@ -51,8 +53,8 @@ def probes(ctx, cases):
             ctx.violations.append(dict(what="linear solver is called with a loose tolerance (solver error can compete with discretisation error)",
                                        key="loose-tol", input=rescorr.replay_payload(c), observed=dict(rtol=worst_r, atol=worst_a)))
         nsteps = len(c["times"]) - 1
-        for at in sorted({0, nsteps // 2, nsteps - 1}):
-            with Probe(fail_at=at) as p2:
+        for at, code in [(a_, c_) for a_ in sorted({0, nsteps // 2, nsteps - 1}) for c_ in (1, -10)]:
+            with Probe(fail_at=at, fail_info=code) as p2:
                 im2 = rescorr.run_impl(c)
             if len(p2.calls) <= at:
                 continue
@@ -60,7 +62,7 @@ def probes(ctx, cases):
             if "error" not in im2 and ("field" not in im or np.abs(im2["field"] - im["field"]).max() > 1e-8 * max(1.0, np.abs(im["field"]).max())):
                 ctx.violations.append(dict(what="a linear solve that reported non-convergence (info != 0) was silently accepted into the result",
                                            key="info-ignored", input=rescorr.replay_payload(c),
-                                           observed=dict(failed_step=at, max_field_change=float(np.abs(im2["field"] - im["field"]).max()) if "field" in im else None)))
+                                           observed=dict(failed_step=at, info=code, max_field_change=float(np.abs(im2["field"] - im["field"]).max()) if "field" in im else None)))
                 break
     ctx.cov["solver_probes"] = seen
     if not seen:
@@ -95,7 +97,7 @@ def field_tol(case):
 def run(ctx):
     core.coq_phase(ctx, GEN, PROPS)
     rng = dom.rng_for(ctx, 4)
-    n = 14 if ctx.quick else 200
+    n = 20 if ctx.quick else 200
     cases = rescorr.gen_cases(rng, n, ctx.quick, nt_max=25 if ctx.quick else 60) + extra_cases(rng, ctx.quick)
     impls = [rescorr.run_impl(c) for c in cases]
     ok = [k for k, im in enumerate(impls) if "field" in im and len(cases[k]["times"]) * cases[k]["nx"] <= 9000]
